@@ -238,6 +238,10 @@ def main():
         import traceback
         ck.violation("the engine could not run on the Redis-backed stores: %s" % traceback.format_exc()[-600:], {"error": str(e)})
     shutil.rmtree(tmpd, ignore_errors=True)
+    import gc
+    for o in gc.get_objects():          # the stores' __del__ would talk to the stand-in server while the interpreter shuts down
+        if isinstance(o, st.RedisStore):
+            o.tracker_id = None
     for m in ("redis", "pottery"):
         sys.modules.pop(m, None)
     ck.cov["rule"] = ("random operation sequences (set, nested update / append, get, delete, contains, iterate, len, reopen) over 3 keys and small values on JSONStore, SimpleStore (dicts and lists), "
